@@ -1,4 +1,5 @@
 import Gaftools.Props.C08
+import Gaftools.Proofs.SortLemmas
 /-!
 # C09 — sort emits every record once, unchanged, plus correct bo/sn/iv tags
 
@@ -9,20 +10,26 @@ is the statement that `process_alignment` computes the declarative `Spec.Sort.sp
 -/
 namespace Gaftools.C09
 open Gaftools.Sort Gaftools.Spec.Sort
+open Gaftools.Proofs.Sort
 
 /-- `process_alignment` (the loop with its `continue`s, asserts and KeyErrors) computes exactly the declarative
     specification; it fails precisely on the records outside the quantifier (unknown node, empty path, two reference contigs). -/
 theorem process_eq_spec (nodes : String → Option NodeTags) (steps : List Step) (plen ps pe off : Int) :
     (processAlignment nodes steps plen ps pe off).toOption = specAln nodes steps plen ps pe off := by
-  sorry
+  exact processAlignment_toOption nodes steps plen ps pe off
 
 /-- every input record is written exactly once: output offsets are a permutation of input offsets -/
 theorem sort_output_perm (l : List Aln) : ((outSuffixes l).map (·.1)).Perm (l.map (·.offset)) := by
-  sorry
+  have : (outSuffixes l).map (·.1) = (sortAlns l).map (·.offset) := by
+    simp [outSuffixes, List.map_map, Function.comp_def]
+  rw [this]
+  exact (C08.sort_perm l).map _
 
 /-- each written line carries the suffix of the very record found at that offset -/
 theorem sort_output_suffix (l : List Aln) : ∀ p ∈ outSuffixes l, ∃ a ∈ l, p = (a.offset, suffix a) := by
-  sorry
+  intro p hp
+  obtain ⟨a, ha, rfl⟩ := List.mem_map.1 hp
+  exact ⟨a, (C08.sort_perm l).subset ha, rfl⟩
 
 /-- the alignments of a file whose records are all inside the quantifier, offsets = ordinals -/
 def alnsOf (specs : List (Option Aln)) : List Aln := specs.filterMap id
@@ -31,11 +38,76 @@ def alnsOf (specs : List (Option Aln)) : List Aln := specs.filterMap id
 def OrdinalOffsets (specs : List (Option Aln)) : Prop :=
   ∀ i (h : i < specs.length), ∀ a, specs[i] = some a → a.offset = (i : Int)
 
+theorem offsets_alnsOf (specs : List (Option Aln)) (hv : ∀ s ∈ specs, s.isSome) (ho : OrdinalOffsets specs) :
+    (alnsOf specs).map (·.offset) = (List.range specs.length).map (fun (i : Nat) => (i : Int)) := by
+  induction specs using snoc_ind with
+  | nil => rfl
+  | snoc specs x ih =>
+    have hv' : ∀ s ∈ specs, s.isSome := fun s hs => hv s (by simp [hs])
+    have ho' : OrdinalOffsets specs := by
+      intro i h a ha
+      have h' : i < (specs ++ [x]).length := by simp; omega
+      apply ho i h' a
+      rw [List.getElem_append_left h]; exact ha
+    obtain ⟨a, rfl⟩ := Option.isSome_iff_exists.1 (hv x (by simp))
+    have hoa : a.offset = (specs.length : Int) := by
+      apply ho specs.length (by simp) a
+      simp
+    simp only [alnsOf, List.filterMap_append, List.map_append, List.length_append, List.length_singleton,
+      List.range_succ] at ih ⊢
+    rw [ih hv' ho']
+    simp [hoa]
+
+theorem lookup_alnsOf (specs : List (Option Aln)) (ho : OrdinalOffsets specs) (a : Aln) (ha : a ∈ alnsOf specs) :
+    (specs[a.offset.toNat]?).join = some a := by
+  have hmem : some a ∈ specs := by
+    obtain ⟨x, hx, hxa⟩ := List.mem_filterMap.1 ha
+    simp only [id] at hxa
+    subst hxa
+    exact hx
+  obtain ⟨i, hi, he⟩ := List.getElem_of_mem hmem
+  have := ho i hi a he
+  rw [this, Int.toNat_natCast, List.getElem?_eq_getElem hi, he]
+  rfl
+
 /-- whole-file statement: the model's output satisfies the executable file-level specification
     (permutation of the input ordinals, pairwise in spec order, spec suffixes) -/
 theorem specFile_model (specs : List (Option Aln)) (hv : ∀ s ∈ specs, s.isSome) (ho : OrdinalOffsets specs) :
     specFile specs (outSuffixes (alnsOf specs)) = true := by
-  sorry
+  have hoff := offsets_alnsOf specs hv ho
+  have hperm := C08.sort_perm (alnsOf specs)
+  have hfst : (outSuffixes (alnsOf specs)).map (·.1) = (sortAlns (alnsOf specs)).map (·.offset) := by
+    simp [outSuffixes, List.map_map, Function.comp_def]
+  have hlen : (sortAlns (alnsOf specs)).length = specs.length := by
+    rw [hperm.length_eq]
+    have := congrArg List.length hoff
+    simpa using this
+  have halns : (outSuffixes (alnsOf specs)).filterMap (fun (o, _) => (specs[o.toNat]?).join)
+      = sortAlns (alnsOf specs) := by
+    rw [outSuffixes, List.filterMap_map]
+    have : ∀ a ∈ sortAlns (alnsOf specs),
+        ((fun (x : Int × String) => (specs[x.1.toNat]?).join) ∘ fun a => (a.offset, suffix a)) a = some a := by
+      intro a ha
+      exact lookup_alnsOf specs ho a (hperm.subset ha)
+    rw [filterMap_congr' this, List.filterMap_some]
+  unfold specFile
+  simp only [Bool.and_eq_true]
+  refine ⟨?_, ?_⟩
+  · unfold isPermOfRange
+    rw [hfst]
+    simp only [Bool.and_eq_true, List.all_eq_true, List.mem_range, beq_iff_eq, List.length_map]
+    refine ⟨hlen, ?_⟩
+    intro i hi
+    have hp : ((sortAlns (alnsOf specs)).map (·.offset)).Perm ((List.range specs.length).map (fun (j : Nat) => (j : Int))) := by
+      rw [← hoff]; exact hperm.map _
+    rw [(hp.filter _).length_eq]
+    exact filter_cast_range _ i hi
+  · simp only [halns]
+    refine ⟨⟨?_, ?_⟩, ?_⟩
+    · simp [outSuffixes]
+    · rw [pairwiseB_iff]
+      exact (C08.sort_sorted _).imp (fun {a b} h => by simpa [keyLeB] using h)
+    · exact zip_suffix_all _
 
 /-! non-vacuity -/
 def exNodes : String → Option NodeTags
